@@ -23,9 +23,9 @@ TRUSTED = [
     'translator tools/translate.py + tools/points_c14.py (R back end): reading of + - * / abs max min np.floor np.ceil int() np.cos np.sin '
     'np.radians np.sqrt np.log, of the two `if not lo <= v < hi: continue` guards, of the np.mgrid slice, of the positional arguments of '
     'fitting.elliptical_gaussian, of the two np.where comparisons, of `m[x, y] += model`, of the add/mask branch of make_residual and of the '
-    'zip() rename lists of load_sources; every other statement of the loop must be one of: logging, the isfinite guard, ravel, i_count',
+    'required_cols / new_cols lists and the pick - remove_columns - add_column statements of load_sources (any other shape is refused); every other statement of the loop must be one of: logging, the isfinite guard, ravel, i_count',
     'Interval tactic: each per-case lemma (|model_px - make_model pixel| <= tol ; blank_px = isnan(pixel)) is checked by the kernel',
-    'hand-written skeleton Model/AeRes.v (loop over the catalogue, option/nan for blanked pixels, sequential rename_column) - tied by the '
+    'hand-written skeleton Model/AeRes.v (loop over the catalogue, option/nan for blanked pixels, pick/remove/add of table columns) - tied by the '
     'per-case lemmas and by the file-level make_residual / load_sources comparisons',
     'wcshelper.sky2pix_ellipse is an uninterpreted function in the theorems; its real outputs are tabulated by the harness (binary64, '
     'exact dyadics) and fed to the model. That they are the catalogued sky position / axes / PA is property C16',
@@ -434,7 +434,7 @@ def load_problem(work, rows, names, ext, tag, extra=None):
     return None, p, colmap
 
 
-def residual_problem(work, case, ext, names, tag, rs):
+def residual_problem(work, case, ext, names, tag, rs, extra=None):
     """make_residual through files: model file = make_model, residual = data -/+ model, add then subtract restores, mask blanks"""
     from astropy.io import fits
     from AegeanTools import AeRes
@@ -443,7 +443,7 @@ def residual_problem(work, case, ext, names, tag, rs):
     data = rs.normal(0, 1, size=shape).astype(np.float32)
     img = os.path.join(work, f'img_{tag}.fits')
     write_image(img, data, hdr)
-    msg, cat, colmap = load_problem(work, case['rows'], names, ext, tag)
+    msg, cat, colmap = load_problem(work, case['rows'], names, ext, tag, extra)
     if msg:
         return msg
     opt = case['opt']
@@ -520,10 +520,12 @@ def run(ctx, model_ok=True):
     cases = [wcs_case(rng, k, rand_opt(rng, k)) for k in range(n_wcs)] + [stub_case(rng, k, rand_opt(rng, k + 2)) for k in range(n_stub)]
     # the empty catalogue and a catalogue that is entirely off the image
     cases.append({'shape': [9, 11], 'wcs': {'kind': 'stub', 'ells': []}, 'rows': [], 'opt': {'mask': False}, 'labels': []})
-    filejobs = [(j, spawn(j)) for j in file_jobs(ctx, rng, cases, 6 if quick else 24)]
-    rj = {'kind': 'rename', 'work': ctx.work, 'rows': [{'ra': 150.0, 'dec': -30.0, 'peak': 2.0, 'a': 30.0, 'b': 20.0, 'pa': 10.0, 'rms': 0.1}],
-          'names': dict(zip(CANON, ['ra', 'dec', 'int_flux', 'a', 'b', 'pa'])), 'extra': {'peak_flux': [9.0]}, 'tag': 'coll'}
-    renjob = (rj, spawn(rj))
+    filejobs = [(j, spawn(j)) for j in file_jobs(ctx, rng, cases, 6 if quick else 24)]   # 6 naming schemes x 4 formats
+    # one-row tables whose requested column clashes with an existing catalogue name / with swapped names
+    one = [{'ra': 150.0, 'dec': -30.0, 'peak': 2.0, 'a': 30.0, 'b': 20.0, 'pa': 10.0, 'rms': 0.1}]
+    renjobs = [(j, spawn(j)) for j in (
+        {'kind': 'rename', 'work': ctx.work, 'rows': one, 'names': SCHEMES[4], 'extra': {k2: v[:1] for k2, v in EXTRA[4].items()}, 'tag': 'coll'},
+        {'kind': 'rename', 'work': ctx.work, 'rows': one, 'names': SCHEMES[5], 'extra': {}, 'tag': 'swap'})]
     goals, metas = [], []
     nreg = 0
     nviol = 0
@@ -591,6 +593,19 @@ def run(ctx, model_ok=True):
             ctx.case(key=None, bucket='certified-pixel')
         ctx.traces += len(goals)
         ctx.notes.append(f'{len(goals)} interval lemmas took {time.time() - t1:.1f}s')
+    # ---- column renaming on one-row tables: a requested column next to a column with the catalogue name; swapped names
+    for job, fut in renjobs:
+        res, why = collect(ctx, job, fut)
+        ctx.case(key=('rename', job['tag']), bucket='load_sources:' + job['tag'])
+        if res is None:
+            ctx.notes.append(f"rename case {job['tag']}: {why}")
+        elif res.get('msg'):
+            ctx.mismatch('load_sources with renamed columns (one-row table)', {'names': job['names'], 'extra': job['extra']}, impl=res['msg'],
+                         is_violation={'kind': 'rename', 'rows': job['rows'], 'names': job['names'], 'extra': job['extra'],
+                                       'what': res['msg']})
+    ctx.oblige('load_sources: a requested column that sits next to a column with the catalogue name (peak_col=int_flux with peak_flux '
+               'present), and swapped names (a_col=b, b_col=a), reach their fields',
+               not any(f.get('what') == 'load_sources with renamed columns (one-row table)' for f in ctx.failures))
     # ---- load_sources / make_residual through files (own processes, started above)
     nfile = nfile_ok = 0
     for job, proc in filejobs:
@@ -606,26 +621,13 @@ def run(ctx, model_ok=True):
         ctx.case(key=('file', job['ext'], tuple(sorted(job['names'].values())), job['case']['opt']['mask']), bucket=f"make_residual:{job['ext']}")
         if res.get('msg'):
             ctx.mismatch('make_residual / load_sources through files', {'names': job['names'], 'ext': job['ext']}, impl=res['msg'],
-                         is_violation={'kind': 'file', 'case': job['case'], 'names': job['names'], 'ext': job['ext'], 'what': res['msg']})
+                         is_violation={'kind': 'file', 'case': job['case'], 'names': job['names'], 'ext': job['ext'], 'extra': job.get('extra'),
+                                       'what': res['msg']})
     ctx.hyp['astropy table write/read (csv, vot, fits, tab) round-trips float64 columns'] = nfile
     ctx.oblige(f'make_residual through files on {nfile_ok} (image, catalogue file, column names, options): model file = make_model, residual = '
                'data -/+ model (nan where blanked), add then subtract restores the image (float32 tolerance), renamed columns reach their fields',
                nfile_ok > 0 and not any(f.get('what', '').startswith('make_residual') for f in ctx.failures),
                'no file case completed' if not nfile_ok else '')
-    # ---- column renaming when the table also has a column with the canonical name
-    res, why = collect(ctx, *renjob)
-    ctx.case(key=('rename-collision',), bucket='load_sources:collision')
-    if res is None:
-        ctx.notes.append(f'rename-collision case: {why}')
-    elif res.get('msg'):
-        known = [t for kind, t in vlib.known_findings('C14') if kind == 'finding' and 'peak_col' in t]
-        if known:
-            ctx.known_lines.append(known[0])
-        else:
-            j = renjob[0]
-            ctx.mismatch('load_sources with a renamed column when the canonical name is also a column', {'colmap': {'peak_col': 'int_flux'}},
-                         impl=res['msg'], is_violation={'kind': 'rename', 'rows': j['rows'], 'names': j['names'], 'extra': j['extra'],
-                                                        'what': res['msg']})
     # ---- find -> subtract on the real finder (validation; depends on the optimiser)
     done = 0
     for job, proc in loops:
@@ -693,13 +695,17 @@ def loop_jobs(ctx, rng, nloop):
 SCHEMES = [dict(zip(CANON, CANON)),
            dict(zip(CANON, ['RAJ2000', 'DEJ2000', 'Sp', 'maj', 'min', 'ang'])),
            dict(zip(CANON, ['ra', 'dec', 'S_peak', 'a', 'b', 'pa'])),
-           dict(zip(CANON, ['ra', 'dec', 'peak_flux', 'bmaj', 'bmin', 'pa']))]
+           dict(zip(CANON, ['ra', 'dec', 'peak_flux', 'bmaj', 'bmin', 'pa'])),
+           dict(zip(CANON, ['ra', 'dec', 'int_flux', 'a', 'b', 'pa'])),      # + an unrelated peak_flux column (EXTRA)
+           dict(zip(CANON, ['ra', 'dec', 'peak_flux', 'b', 'a', 'pa']))]     # swapped: column b holds the major axis
+EXTRA = {4: {'peak_flux': [9.0] * 8}}
 EXTS = ['csv', 'vot', 'fits', 'tab']
 
 
 def file_jobs(ctx, rng, cases, n):
     wc = [c for c in cases if c['wcs']['kind'] == 'wcs' and c['rows']]
     return [{'kind': 'file', 'work': ctx.work, 'case': wc[k % len(wc)], 'names': SCHEMES[k % len(SCHEMES)], 'ext': EXTS[k % len(EXTS)],
+             'extra': {k2: v[:len(wc[k % len(wc)]['rows'])] for k2, v in EXTRA.get(k % len(SCHEMES), {}).items()},
              'tag': f'f{k}', 'seed': rng.randrange(2 ** 31)} for k in range(n)]
 
 
@@ -719,7 +725,7 @@ def _job_main(arg):
                 out['control'] = c0
             else:
                 out['msg'] = residual_problem(job['work'], job['case'], job['ext'], job['names'], job['tag'],
-                                              np.random.RandomState(job['seed']))
+                                              np.random.RandomState(job['seed']), job.get('extra'))
         elif job['kind'] == 'rename':
             out['msg'], _, _ = load_problem(job['work'], job['rows'], job['names'], 'csv', job['tag'], extra=job['extra'])
     except Exception as e:
@@ -769,7 +775,7 @@ def replay(ctx, obj):
         if not np.all(np.abs(m.astype(float) - parts[0].astype(float) - parts[1]) <= 1e-6 * tot):
             msg = fi['what']
     elif kind == 'file':
-        msg = residual_problem(ctx.work, fi['case'], fi['ext'], fi['names'], 'replay', np.random.RandomState(1))
+        msg = residual_problem(ctx.work, fi['case'], fi['ext'], fi['names'], 'replay', np.random.RandomState(1), fi.get('extra'))
     elif kind == 'rename':
         msg, _, _ = load_problem(ctx.work, fi['rows'], fi['names'], 'csv', 'replay', extra=fi.get('extra'))
     elif kind == 'loop':
